@@ -308,8 +308,16 @@ class LocalStorageBackend(StorageBackend):
         )
 
         try:
-            # Write content to temp file
-            os.write(fd, content)
+            # Write content to temp file. os.write() may transfer fewer bytes
+            # than requested (POSIX short write: nearly full disk, quota,
+            # signal); keep writing until everything is in the file - a
+            # truncated file must never be fsynced, renamed and acknowledged.
+            remaining = memoryview(content)
+            while len(remaining) > 0:
+                written = os.write(fd, remaining)
+                if written <= 0:
+                    raise IOError(f"os.write() wrote {written} bytes to {temp_path}")
+                remaining = remaining[written:]
 
             # Ensure data is written to disk (durability guarantee)
             os.fsync(fd)
